@@ -608,7 +608,7 @@ int run()
     N = &node;
     SeedRandomStateForTest(SeedRand::ZEROS);
     hb::describer() = describe;
-    const int depth1 = vx::thorough() ? 10 : 6, depth2 = vx::thorough() ? 6 : 4;
+    const int depth1 = vx::thorough() ? 12 : 6, depth2 = vx::thorough() ? 7 : 4;
     const int de = getenv("C64_DE") ? atoi(getenv("C64_DE")) : (vx::thorough() ? 4 : 3);
     const int d1 = getenv("C64_D1") ? atoi(getenv("C64_D1")) : depth1, d2 = getenv("C64_D2") ? atoi(getenv("C64_D2")) : depth2;
 
